@@ -6,14 +6,37 @@ T_STD = ["E2 std models in /verif/mirsym/models*.py (Vec/String/slice/str/Option
 
 PROPS = {
     "C03": {
-        "files": ["a2lfile/src/tokenizer.rs"],
+        "files": ["a2lfile/src/tokenizer.rs", "a2lfile/src/parser.rs", "a2lfile/src/a2ml.rs", "a2lfile/src/ifdata.rs", "a2lfile/src/loader.rs"],
         "trusted": T_STD,
-        "assumptions": [],
+        "assumptions": ["texts over the stated alphabets / prefix families only; the generated element parsers are outside the claim"],
         "jobs": [
-            {"engine": "E2", "module": "tokenizer", "harness": "h_find_string_end_4", "functions": ["tokenizer::find_string_end"],
-             "bound": "all byte strings of length 4, any start <= 4", "timeout": 120},
             {"engine": "E2", "module": "tokenizer", "harness": "h_find_string_end_6", "functions": ["tokenizer::find_string_end"],
-             "bound": "all byte strings of length 6, any start <= 6", "timeout": 200, "quick": False},
+             "bound": "all byte strings of length 6 (full byte range), any start <= 6", "timeout": 200},
+            {"engine": "E2", "module": "tokenizer", "harness": "h_find_block_comment_end_5", "functions": ["tokenizer::find_block_comment_end"],
+             "bound": "all byte strings of length 5 (full byte range), any start <= 5", "timeout": 200},
+        ] + [
+            {"engine": "E2", "module": "tokenizer", "harness": "h_tok_core_%d" % n,
+             "functions": ["tokenizer::tokenize_core", "tokenizer::handle_a2ml", "tokenizer::find_string_end", "tokenizer::find_block_comment_end", "tokenizer::separator_check", "tokenizer::count_newlines", "tokenizer::is_identchar", "tokenizer::is_numchar", "tokenizer::is_pathchar"],
+             "bound": "all texts of length %d over the 15-symbol class alphabet ' \\n\\r/*\"\\0xag.-['" % n, "timeout": 300, "quick": n <= 4, "validate": 100}
+            for n in (1, 2, 3, 4, 5)
+        ] + [
+            {"engine": "E2", "module": "tokenizer", "harness": h, "functions": ["tokenizer::tokenize_core", "tokenizer::handle_a2ml"],
+             "bound": b, "timeout": 300, "quick": q}
+            for h, b, q in [
+                ("h_tok_a2ml_tail_0", "the text '/begin A2ML'", True),
+                ("h_tok_a2ml_tail_1", "'/begin A2ML' + every 1-char tail over ' \\n\\r/*endx\"'", True),
+                ("h_tok_a2ml_tail_2", "'/begin A2ML' + every 2-char tail over ' \\n\\r/*endx\"'", True),
+                ("h_tok_a2ml_tail_3", "'/begin A2ML' + every 3-char tail over ' \\n\\r/*endx\"'", True),
+                ("h_tok_a2ml_tail_4", "'/begin A2ML ' + every 4-char tail over ' \\n\\r/*endx'", True),
+                ("h_tok_a2ml_tail_5", "'/begin A2ML x' + every 5-char tail over ' \\n\\r/*end'", False),
+                ("h_tok_include_tail_3", "'/include ' + every 3-char tail over ' \\n\"/\\a.0'", True),
+                ("h_tok_string_tail_4", "'\"' + every 4-char tail over ' \\n\"\\a'", True),
+                ("h_tok_comment_tail_4", "'/*' + every 4-char tail over ' \\n*/a'", True),
+                ("h_tok_number_tail_3", "'0x' + every 3-char tail over ' 0afxg.-+'", True),
+                ("h_tok_keyword_tail_3", "'/' + every 3-char tail over 'begind /*'", True),
+                ("h_tok_core_raw_2", "all valid UTF-8 texts of 2 bytes (full byte range)", True),
+                ("h_tok_core_raw_3", "all valid UTF-8 texts of 3 bytes (full byte range)", False),
+            ]
         ],
     },
     "C13": {
